@@ -42,22 +42,25 @@ RUN_ACTIONS = ["Assign", "Delete", "Read", "ClosureRead", "Walrus", "CondRead", 
                "BlockEnd", "LoopTest", "ForNext", "CompNext", "TryBodyDone", "Handle", "TryAbrupt", "LeaveElse",
                "LeaveHandler", "FinallyDone", "FinallyOverride", "WithExit", "LoopBreak", "LoopContinue", "Unwind", "Finish"]
 
+FAMILIES = {
+    "DefAssign_gflow": "1 variable, <= 4 statements, <= 1 compound of {if, while, for}, leaves asg/del/read/mr/raise/ret/brk/cnt",
+    "DefAssign_gtry": "1 variable, <= 4 statements, 1 try (handlers (), (V), (*), as-name, finally), leaves asg/del/read/mr",
+    "DefAssign_gmisc": "2 variables, <= 3 statements, <= 1 compound of {match, with, if}, leaves asg/read/cread/wal/cex/comp/ret + dead assignments",
+    "DefAssign_gtry5": "variable bound on entry, then <= 4 statements: 1 try (bare except, optional finally), leaves del/read/mr",
+    "DefAssign_gloop5": "variable bound on entry, then <= 4 statements: 1 loop (while / for, else), leaves asg/del/read/brk/cnt",
+}
+SIMWHAT = "random growth: 3 variables, <= 10 statements, nesting <= 3, <= 4 compound statements, all kinds"
+
+# gen: (cfg, number of programs selected; None = the whole family is replayed) ; sim: (cfg, seconds, depth, max records, selected)
 TIERS = {
     "quick": {
-        "gen": [("DefAssign_gflow", 50, "1 variable, <= 4 statements, <= 1 compound of {if, while, for}, leaves asg/del/read/mr/raise/ret/brk/cnt"),
-                ("DefAssign_gtry", 60, "1 variable, <= 4 statements, 1 try (handlers (), (V), (*), as-name, finally), leaves asg/del/read/mr"),
-                ("DefAssign_gmisc", 60, "2 variables, <= 3 statements, <= 1 compound of {match, with, if}, leaves asg/read/cread/wal/cex/comp/ret + dead assignments"),
-                ("DefAssign_gtry5", 45, "variable bound on entry, then <= 4 statements: 1 try (bare except, optional finally), leaves del/read/mr")],
-        "sim": ("DefAssign_gsim", 120, 14, 1500, 50, "random growth: 3 variables, <= 10 statements, nesting <= 3, <= 4 compound statements, all kinds"),
+        "gen": [("DefAssign_gflow", 40), ("DefAssign_gtry", 50), ("DefAssign_gmisc", 55), ("DefAssign_gtry5", 40), ("DefAssign_gloop5", 40)],
+        "sim": ("DefAssign_gsim", 120, 14, 1500, 45),
         "run": "DefAssign_run", "per_module": 45,
     },
     "thorough": {
-        "gen": [("DefAssign_gflow", 220, "1 variable, <= 4 statements, <= 1 compound of {if, while, for}, leaves asg/del/read/mr/raise/ret/brk/cnt"),
-                ("DefAssign_gtry", 220, "1 variable, <= 4 statements, 1 try (handlers (), (V), (*), as-name, finally), leaves asg/del/read/mr"),
-                ("DefAssign_gmisc", 220, "2 variables, <= 3 statements, <= 1 compound of {match, with, if}, leaves asg/read/cread/wal/cex/comp/ret + dead assignments"),
-                ("DefAssign_gtry5", None, "variable bound on entry, then <= 4 statements: 1 try (bare except, optional finally), leaves del/read/mr "
-                                          "-- the WHOLE family is replayed")],
-        "sim": ("DefAssign_gsim", 240, 16, 6000, 160, "random growth: 3 variables, <= 10 statements, nesting <= 3, <= 4 compound statements, all kinds"),
+        "gen": [("DefAssign_gflow", 220), ("DefAssign_gtry", 220), ("DefAssign_gmisc", 220), ("DefAssign_gtry5", None), ("DefAssign_gloop5", 250)],
+        "sim": ("DefAssign_gsim", 240, 16, 6000, 160),
         "run": "DefAssign_runt", "per_module": 50,
     },
 }
@@ -210,20 +213,10 @@ def var_features(info, var, cfg):
 # --------------------------------------------------------------------------- the check
 
 def tlc_gen(cfg, workers):
-    cache = os.environ.get("C21_DEV_CACHE")      # development aid only
-    if cache and os.path.exists(os.path.join(cache, cfg + ".json")):
-        r = core.TLCResult()
-        with open(os.path.join(cache, cfg + ".json")) as f:
-            d = json.load(f)
-        r.printed, r.coverage, r.generated, r.distinct, r.ok = d["printed"], {k: tuple(v) for k, v in d["coverage"].items()}, d["generated"], d["distinct"], True
-        return r
     r = core.tlc("DefAssign", cfg, workers=workers, coverage=True, timeout=2400, heap="4g")
     if not r.ok:
         sys.stderr.write(r.out[-4000:])
         core.die("TLC (gen %s) failed: %s" % (cfg, r.violation or r.rc))
-    if cache:
-        with open(os.path.join(cache, cfg + ".json"), "w") as f:
-            json.dump({"printed": r.printed, "coverage": r.coverage, "generated": r.generated, "distinct": r.distinct}, f)
     return r
 
 
@@ -252,9 +245,10 @@ def run(tier, seed, only=None):
     selected, gen_cov, n_enum = [], collections.Counter(), 0
     states = transitions = 0
     if only is None:
-        with concurrent.futures.ThreadPoolExecutor(max_workers=4) as ex:
-            futs = [(cfg, n, what, ex.submit(tlc_gen, cfg, max(2, workers // 2))) for cfg, n, what in T["gen"]]
-            simcfg, simsec, simdepth, simmax, simn, simwhat = T["sim"]
+        with concurrent.futures.ThreadPoolExecutor(max_workers=5) as ex:
+            futs = [(cfg, n, FAMILIES[cfg], ex.submit(tlc_gen, cfg, max(2, workers // 2))) for cfg, n in T["gen"]]
+            simcfg, simsec, simdepth, simmax, simn = T["sim"]
+            simwhat = SIMWHAT
             # one worker + a record cap that is reached well before the time budget: the same seed gives the same programs
             sim = core.tlc_simulate("DefAssign", simcfg, seconds=simsec, depth=simdepth, workers=1, seed=seed + 1, max_records=simmax)
             gens = [(cfg, n, what, f.result()) for cfg, n, what, f in futs]
@@ -271,7 +265,8 @@ def run(tier, seed, only=None):
                 if a in GEN_ACTIONS:
                     gen_cov[a] += tot
             pick = stratified(progs, n, rng) if n is not None else list(progs)
-            cov["tlc"].append(dict(r.summary(), config=cfg, what=what, programs_published=len(progs), programs_selected=len(pick), exhaustive=True))
+            cov["tlc"].append(dict(r.summary(), config=cfg, what=what, programs_published=len(progs), programs_selected=len(pick), exhaustive=True,
+                                   whole_family_replayed=n is None))
             for p in pick:
                 c = ld.canon(p)
                 if c not in seen:
